@@ -25,6 +25,12 @@ type Gen struct {
 	ConstBias int
 	// Big: allow constant ranges of about 10^6 elements
 	Big bool
+	// AllDynamic: the program will be compiled without a declared environment, so every variable is
+	// dynamically typed for the checker (matters for the exclusion of known finding F26)
+	AllDynamic bool
+	// WrapLog (percent): wrap int / bool / string / float64 sub-expressions in a logging call, so that the
+	// order and the number of evaluations of every operand becomes observable in the call log
+	WrapLog int
 	// statistics
 	Excluded map[string]int
 }
@@ -79,6 +85,26 @@ func (g *Gen) Expr(ty *Ty, d int) *X {
 	g.Fuel--
 	if d <= 0 || g.Fuel <= 0 {
 		return g.Leaf(ty)
+	}
+	if g.WrapLog > 0 && g.Calls && g.pick(100, "wraplog") < g.WrapLog {
+		switch {
+		case ty.K == KInt:
+			x := Call("L", ty, g.num(ty, d))
+			x.Tag = g.tag()
+			return x
+		case ty.K == KBool:
+			x := Call("LB", ty, g.boolean(d))
+			x.Tag = g.tag()
+			return x
+		case ty.K == KStr:
+			x := Call("LS", ty, g.str(d))
+			x.Tag = g.tag()
+			return x
+		case ty.K == KF64:
+			x := Call("LF", ty, g.fixArgRetype(g.num(ty, d)))
+			x.Tag = g.tag()
+			return x
+		}
 	}
 	switch {
 	case ty.IsNum():
@@ -464,8 +490,10 @@ func (g *Gen) floatCall(d int) *X {
 // floatArg: an argument for a float64 parameter. The checker re-types every integer literal on the
 // arithmetic spine of a call argument to the parameter type (known finding "arg-retype": `Half(F + I/2)`
 // divides in float64); with the exclusion on, spine literals are replaced by variables.
-func (g *Gen) floatArg(d int) *X {
-	x := g.Expr(TF64, d)
+func (g *Gen) floatArg(d int) *X { return g.fixArgRetype(g.Expr(TF64, d)) }
+
+// fixArgRetype applies the exclusion of known finding F19 to an expression about to become a call argument.
+func (g *Gen) fixArgRetype(x *X) *X {
 	if g.Excl["arg-retype"] {
 		var fix func(n *X) *X
 		fix = func(n *X) *X {
@@ -584,7 +612,14 @@ func (g *Gen) boolean(d int) *X {
 		{2, func() *X { return g.Leaf(TBool) }},
 		{6, func() *X {
 			op := []string{"==", "!=", "<", "<=", ">", ">="}[g.pick(6, "cmp")]
-			return Bin(op, g.anyNum(d-1), g.anyNum(d-1), TBool)
+			a, b := g.anyNum(d-1), g.anyNum(d-1)
+			if op == "==" && g.Excl["in-array-dyn-arith"] {
+				// known finding F26 (same root cause): arithmetic mixing an int with a dynamically typed operand is
+				// typed int by the checker; `==` between two static ints compiles to the int-only comparison, which
+				// fails when the value is of another kind at run time
+				a, b = g.fixIntClaim(a), g.fixIntClaim(b)
+			}
+			return Bin(op, a, b, TBool)
 		}},
 		{5, func() *X {
 			op := []string{"and", "or", "&&", "||"}[g.pick(4, "conn")]
@@ -719,6 +754,26 @@ func (g *Gen) fixIntArrayNeedle(needle, hay *X) *X {
 		return l
 	}
 	return needle
+}
+
+// fixIntClaim replaces an arithmetic / conditional expression of a non-int numeric kind that has a dynamically
+// typed operand (the checker may type it int) by a leaf of its type.
+func (g *Gen) fixIntClaim(x *X) *X {
+	if x.Ty.K == KInt || !x.Ty.IsNum() {
+		return x
+	}
+	switch x.K {
+	case "bin", "un", "cond", "elvis":
+		if g.AllDynamic || x.HasDynamic() || x.Has(func(n *X) bool { return n.K == "ptr" }) {
+			g.Excluded["in-array-dyn-arith"]++
+			saved := g.ConstBias
+			g.ConstBias = 0
+			l := g.Leaf(x.Ty)
+			g.ConstBias = saved
+			return l
+		}
+	}
+	return x
 }
 
 func needleStaticStr(x *X) bool {
